@@ -8,7 +8,7 @@ CONSTANTS
   TF = "t22e"
   PG = "p2s"
   TG = "t22d"
-  LAYOUTS = {"dfs"}
+  LAYOUTS = {"dfs", "hole", "low"}
   EMIT = TRUE
 VIEW View
 INVARIANTS LawArithAff ResultWellFormed
